@@ -31,7 +31,7 @@ var c08PreCfg = GenCfg{
 }
 
 func genC08Op(t *rapid.T, blocks int) Op {
-	k := rapid.SampledFrom([]string{"write", "write", "snap", "snap", "snapdup", "remove", "markrm", "revert", "resize", "setcp", "setrebuilding", "setclonestatus", "setrev", "close", "open"}).Draw(t, "opkind")
+	k := rapid.SampledFrom([]string{"write", "write", "snap", "snap", "snapdup", "remove", "remove", "markrm", "revert", "resize", "setcp", "setrebuilding", "setclonestatus", "setrev", "close", "open"}).Draw(t, "opkind")
 	switch k {
 	case "write":
 		return genWrite(t, blocks)
@@ -394,8 +394,24 @@ func runC08Case(cc C08Case) (*Fail, c08Stats, error) {
 		}
 		stt.exhaustive = true
 	} else {
-		for _, sidx := range cc.Sample {
-			pick[sidx%len(calls)] = true
+		// the data calls of a write or a fold (one pwrite64 per block) would crowd
+		// out the few metadata calls that decide the chain: two of three sampled
+		// points are metadata calls
+		var metaIdx, dataIdx []int
+		for ci, c := range calls {
+			if c.Name == "pwrite64" || c.Name == "fallocate" || c.Role == "write(head.img)" || c.Role == "write(snap.img)" {
+				dataIdx = append(dataIdx, ci)
+			} else {
+				metaIdx = append(metaIdx, ci)
+			}
+		}
+		for k, sidx := range cc.Sample {
+			switch {
+			case len(metaIdx) > 0 && (k%3 != 2 || len(dataIdx) == 0):
+				pick[metaIdx[sidx%len(metaIdx)]] = true
+			case len(dataIdx) > 0:
+				pick[dataIdx[sidx%len(dataIdx)]] = true
+			}
 		}
 		stt.exhaustive = len(pick) == len(calls)
 	}
@@ -625,6 +641,21 @@ func genC08Case(t *rapid.T, all bool) C08Case {
 		}
 	}
 	cc.Op = genC08Op(t, pre.Blocks)
+	if cc.Op.K == "remove" || cc.Op.K == "markrm" {
+		// a deletion needs a chain with snapshots below a checkpoint: make sure the
+		// pre-state has them (automatic snapshots with data of their own)
+		n := len(cc.Pre.Ops)
+		for k := 0; k < 3; k++ {
+			off := rapid.Int64Range(0, int64(pre.Blocks)*8-8).Draw(t, "deloff")
+			cc.Pre.Ops = append(cc.Pre.Ops,
+				Op{K: "write", Off: off, Len: rapid.Int64Range(1, 8).Draw(t, "dellen"), Seed: rapid.IntRange(1, 250).Draw(t, "delseed")},
+				Op{K: "snap", Name: fmt.Sprintf("d%d", n+k), User: rapid.IntRange(0, 3).Draw(t, "deluser") == 0})
+		}
+		cc.Pre.Ops = append(cc.Pre.Ops, Op{K: "setcp", On: true})
+		if cc.Pre.MaxChain > 0 && cc.Pre.MaxChain < 12 {
+			cc.Pre.MaxChain = 12
+		}
+	}
 	if !all {
 		cc.Sample = rapid.SliceOfN(rapid.IntRange(0, 200), 2, 4).Draw(t, "sample")
 	}
